@@ -39,12 +39,13 @@ def sample_cfg(rng, clean=None):
     if clean is None:
         clean = rng.random() < 0.55
     args = dict(isCompact=rng.random() < 0.6, produceFc=rng.random() < 0.8, isNac=rng.random() < 0.85,
-                nacArg=False, bornFile=False, fsFile=0, fcFile="none", calcArg="none")
+                nacArg=False, bornFile=False, fsFile=0, fcFile="none", calcArg="none", cellArg="none")
     env = dict(FS=0, FC="none", H5="none", BORN=False)
     if not clean:
         args.update(nacArg=rng.random() < 0.2, bornFile=rng.random() < 0.2,
                     fsFile=rng.choice([0, 0, 0, 1, 2]), fcFile=rng.choice(["none"] * 4 + ["txtF", "txtC", "h5F", "h5C"]),
-                    calcArg=rng.choice(["none", "none", "none", "vasp", "qe"]))
+                    calcArg=rng.choice(["none", "none", "none", "vasp", "qe"]),
+                    cellArg=rng.choice(["none"] * 5 + ["unitcell"]))
         env.update(FS=rng.choice([0, 0, 1, 2]), FC=rng.choice(["none", "none", "full", "compact"]),
                    H5=rng.choice(["none", "none", "full", "compact"]), BORN=rng.random() < 0.35)
     return dict(obj=obj, st=st, comp=comp, args=args, env=env, big=rng.random() < 0.25)
@@ -81,7 +82,7 @@ def run_one(cfg, seed, gonze_budget=1.0):
         else:
             obs["err"] = "none"
             q["phonons"] = -1
-            comparable = (cfg["args"]["calcArg"] == "none"
+            comparable = (cfg["args"]["calcArg"] == "none" and cfg["args"]["cellArg"] == "none"
                           and (obs["fc"]["src"] == "yaml" or (obs["fc"]["src"] == "produced" and obs["fc"]["sym"]
                                                                and obs["ds"]["src"] == "yaml"))
                           and ((o["nac"]["kind"] == "none" and obs["nac"]["src"] == "none") or obs["nac"]["src"] == "yaml"))
@@ -192,7 +193,8 @@ def saveload_layer(ctx, col, replay_cfgs=None):
         if aux["text"]:
             try:
                 T.yaml_events(col, aux["text"], aux["ph"], aux["ph2"], ev["obs"], origin="yaml#%d" % i,
-                              cap=(1 if ctx.quick else 3), rng=nprng)
+                              cap=(1 if ctx.quick else 3), rng=nprng,
+                              cells_from_file=(cfg["args"].get("cellArg", "none") == "none"))
             except Exception as e:  # a saved file that is not YAML / not the documented layout
                 ctx.violation("text:yaml:Unreadable", "C16 the saved file cannot be walked as phonopy.yaml (%s: %s)" % (type(e).__name__, e),
                               dict(event=ev, error=repr(e)))
@@ -247,21 +249,28 @@ CalcArgs == %(calcargs)s
 ObjsA == {[cell |-> Cell0, calc |-> c, ds |-> d, fc |-> f, nac |-> [kind |-> "plain", factor |-> TRUE]] :
             c \in Calcs, d \in DsAll, f \in {"none", "full", "compact"}}
 StsA == {[fs |-> a, disp |-> b, fc |-> c, born |-> "unset", eps |-> "unset"] : a \in %(sw)s, b \in %(sw)s, c \in Tri}
-ArgsA == {[isCompact |-> a, produceFc |-> b, isNac |-> TRUE, nacArg |-> FALSE, bornFile |-> FALSE, fsFile |-> c, fcFile |-> d, calcArg |-> e] :
+ArgsA == {[isCompact |-> a, produceFc |-> b, isNac |-> TRUE, nacArg |-> FALSE, bornFile |-> FALSE, fsFile |-> c, fcFile |-> d, calcArg |-> e, cellArg |-> "none"] :
             a \in B, b \in B, c \in {0, 1, 2}, d \in %(fcfiles)s, e \in CalcArgs}
 EnvsA == {[FS |-> a, FC |-> b, H5 |-> c, BORN |-> FALSE] : a \in {0, 1, 2}, b \in {"none", "full", "compact"}, c \in %(h5)s}
 (* run B: NAC chain (dataset / force constants fixed) *)
 ObjsB == {[cell |-> Cell0, calc |-> c, ds |-> [type |-> 1, forces |-> TRUE, energies |-> FALSE], fc |-> "none", nac |-> n] :
             c \in {"none", "qe"}, n \in NacAll}
 StsB == {[fs |-> x, disp |-> y, fc |-> "unset", born |-> a, eps |-> b] : a \in Tri, b \in Tri, x \in %(swb)s, y \in %(swb)s}
-ArgsB == {[isCompact |-> TRUE, produceFc |-> TRUE, isNac |-> a, nacArg |-> b, bornFile |-> c, fsFile |-> 0, fcFile |-> "none", calcArg |-> e] :
-            a \in B, b \in B, c \in B, e \in {"none", "vasp", "qe"}}
+ArgsB == {[isCompact |-> TRUE, produceFc |-> TRUE, isNac |-> a, nacArg |-> b, bornFile |-> c, fsFile |-> 0, fcFile |-> "none", calcArg |-> e, cellArg |-> g] :
+            a \in B, b \in B, c \in B, e \in {"none", "vasp", "qe"}, g \in {"none", "unitcell"}}
 EnvsB == {[FS |-> 0, FC |-> "none", H5 |-> "none", BORN |-> a] : a \in B}
+(* run C: crystal structure by argument (the saved file is then not parsed) *)
+ObjsC == {[cell |-> Cell0, calc |-> "qe", ds |-> d, fc |-> f, nac |-> [kind |-> "plain", factor |-> TRUE]] :
+            d \in DsAll, f \in {"none", "full", "compact"}}
+StsC == {[fs |-> "unset", disp |-> "unset", fc |-> c, born |-> "unset", eps |-> "unset"] : c \in Tri}
+ArgsC == {[isCompact |-> a, produceFc |-> b, isNac |-> TRUE, nacArg |-> n, bornFile |-> FALSE, fsFile |-> c, fcFile |-> d, calcArg |-> e, cellArg |-> g] :
+            a \in B, b \in B, n \in B, c \in {0, 1}, d \in {"none", "txtF"}, e \in {"none", "vasp"}, g \in {"none", "unitcell"}}
+EnvsC == {[FS |-> a, FC |-> b, H5 |-> "none", BORN |-> c] : a \in {0, 2}, b \in {"none", "full"}, c \in B}
 (* run D: the documented priority order of phonopy.load against the implemented one *)
 ObjsD == {[cell |-> Cell0, calc |-> "none", ds |-> [type |-> 1, forces |-> TRUE, energies |-> FALSE], fc |-> f, nac |-> [kind |-> "plain", factor |-> TRUE]] :
             f \in {"none", "full"}}
 StsD == {[fs |-> "unset", disp |-> "unset", fc |-> c, born |-> b, eps |-> "unset"] : c \in {"unset", "T"}, b \in {"unset", "F"}}
-ArgsD == {[isCompact |-> TRUE, produceFc |-> TRUE, isNac |-> TRUE, nacArg |-> FALSE, bornFile |-> FALSE, fsFile |-> c, fcFile |-> d, calcArg |-> "none"] :
+ArgsD == {[isCompact |-> TRUE, produceFc |-> TRUE, isNac |-> TRUE, nacArg |-> FALSE, bornFile |-> FALSE, fsFile |-> c, fcFile |-> d, calcArg |-> "none", cellArg |-> "none"] :
             c \in {0, 1}, d \in {"none", "txtF"}}
 EnvsD == {[FS |-> 0, FC |-> b, H5 |-> "none", BORN |-> FALSE] : b \in {"none", "full"}}
 ====
@@ -298,7 +307,8 @@ def model_layer(ctx):
         compsA = '{"F", "xz"}'
     mc = MC_MODEL % par
     inv = "\n".join("INVARIANT " + i for i in REQ_INVS)
-    for r, comps, solver in (("A", compsA, "FALSE"), ("B", '{"F", "T", "xz"}', "FALSE"), ("B", '{"F"}', "TRUE")):
+    for r, comps, solver in (("A", compsA, "FALSE"), ("B", '{"F", "T", "xz"}', "FALSE"), ("C", '{"F"}', "FALSE"),
+                             ("B", '{"F"}', "TRUE")):
         res = ctx.tlc("MC_SaveLoad", cfg_text=CFG_MODEL % dict(r=r, comps=comps, solver=solver, invs=inv),
                       extra_files={"MC_SaveLoad.tla": mc}, requirement=True, workers=8,
                       coverage=(r == "B" and solver == "TRUE"))
@@ -359,7 +369,12 @@ INVARIANT InvPrecision
 def text_layer(ctx, col):
     import tempfile, shutil, os
     # the requirement on the specification's formats, values spanning the printable range
-    ctx.tlc("TextCodec", cfg_text=CFG_TEXT_MODEL % "FALSE", requirement=True, workers=4)
+    r0 = ctx.tlc("TextCodec", cfg_text=CFG_TEXT_MODEL % "FALSE", requirement=True, workers=4, coverage=True)
+    cov = {a: r0.coverage.get(a, (0, 0))[1] for a in ("Choose", "Write")}
+    ctx.extra.setdefault("coverage_actions_other", {})["TextCodec"] = cov
+    if any(v == 0 for v in cov.values()):
+        from harness.tlc import MachineryError
+        raise MachineryError("an action of TextCodec never fired: %s" % cov)
     # the same on the formats as the pinned tree writes them: recorded, the finding is established on the real files below
     res = ctx.tlc("TextCodec", cfg_text=CFG_TEXT_MODEL % "TRUE", requirement=False, workers=4)
     ctx.extra["pinned_formats_model"] = dict(violated=res.violated,
@@ -530,9 +545,16 @@ def codec_layer(ctx, col):
     from harness import c16_codecs as C
     nprng = np.random.default_rng(ctx.seed + 55)
     # specification level
-    ctx.tlc("DatasetConv", cfg_text=CFG_CONV_MODEL % (2 if ctx.quick else 3), requirement=True, workers=4)
-    ctx.tlc("MC_BornCodec", cfg_text=CFG_BORN_MODEL,
+    cov = {}
+    r1 = ctx.tlc("DatasetConv", cfg_text=CFG_CONV_MODEL % (2 if ctx.quick else 3), requirement=True, workers=4, coverage=True)
+    cov["DatasetConv"] = {a: r1.coverage.get(a, (0, 0))[1] for a in ("Choose", "Convert")}
+    r2 = ctx.tlc("MC_BornCodec", coverage=True, cfg_text=CFG_BORN_MODEL,
             extra_files={"MC_BornCodec.tla": MC_BORN_MODEL % ("{-1, 1}" if ctx.quick else "-1..1", ", ".join(to_tla(o) for o in C.ORDERS))}, requirement=True, workers=4)
+    cov["BornCodec"] = {a: r2.coverage.get(a, (0, 0))[1] for a in ("Choose", "Write", "Parse")}
+    ctx.extra.setdefault("coverage_actions_other", {}).update(cov)
+    if any(v == 0 for d in cov.values() for v in d.values()):
+        from harness.tlc import MachineryError
+        raise MachineryError("an action of DatasetConv/BornCodec never fired: %s" % cov)
     # real code
     tmp = tempfile.mkdtemp(prefix="c16c_", dir=os.path.join(W.VERIF, ".run"))
     try:
@@ -577,7 +599,30 @@ def codec_layer(ctx, col):
         ctx.violation("born:" + name, "C16 BORN write/parse: %s fails on the real code" % name, dict(invariant=name, event=e))
 
 
+ASSUMPTIONS = [
+    "The original object is set up with its calculator's default unit factors (frequency factor; NAC factor when the "
+    "NAC parameters carry none): load() always takes the calculator's defaults, frequency_unit_conversion_factor of the "
+    "file is written but never read.",
+    "No solver for type-2 datasets (symfc/alm) is installed: load(produce_fc=True) of a type-2 dataset without force "
+    "constants raises ForceCalculatorRequiredError; SaveLoad.tla models it (HasFcSolver = FALSE) and the requirement on "
+    "reloaded phonons is evaluated for type-1 datasets and for stored force constants.",
+    "Phonons are compared as eigenvalues of the dynamical matrix (sign(f) f^2) at 5 q-points, relative tolerance 1e-9, against "
+    "the original object with the masses rounded to the 6 written decimals; force constants produced from a reloaded dataset "
+    "are compared with the same pipeline (produce + symmetrize, same layout) on the original dataset.",
+    "PartialNAC: with only one of born_effective_charge / dielectric_constant switched on, save() writes half of the NAC "
+    "parameters and load() ignores them (recorded, PartialNacLoadable reachable violation; not counted against C16).",
+    "get_displacements_and_forces carries displacements and forces only (no energies): the lossless claim is about those.",
+    "Text level: numbers with at most nine significant digits (short decimals / dyadic fractions, 1e-9 .. 1.2e6, both signs, "
+    "signed zero); lines with other numbers are judged through error classes (half a unit of the last written decimal + 2 ulp) "
+    "in SaveLoadTrace, not character by character.",
+    "Crystal structure by argument: modelled for load(unitcell=...) (the saved file is then not parsed at all, as documented); "
+    "not modelled: supercell=, unitcell_filename=, supercell_filename= (calculator structure files: C17), "
+    "use_SNF_supercell / symprec / is_symmetry (not recorded by save()), pypolymlp, hdf5_settings (NotImplementedError).",
+]
+
+
 def run(ctx):
+    ctx.assumptions.extend(ASSUMPTIONS)
     ctx.rule = ("one case = one (object variant, save settings, compression, load arguments, ambient files) "
                 "configuration of SaveLoad.tla realised on the real code; distinct configurations are counted")
     import os
